@@ -186,14 +186,16 @@ def run(ctx):
     ctx.floor("C08.value-layouts", "column-type arms of the value parser", len(seen_arms), 11)
     # sibling agreement: the encoder's string-like set equals the decoder's
     enc = prog.one(r"^<\[u8\] as value::encode::ToMysqlValue>::to_mysql_bin$")
-    sw = [enc.term(b) for b in range(enc.n) if enc.term(b)["k"] == "switch" and not enc.is_cleanup(b)]
+    # the column types under which the byte-string encoder writes (however the test is spelled: match arms, matches!, a predicate helper)
+    from engines import coltype as _coltype, wire as _wire
     enc_set = set()
-    if sw:
-        t = sw[0]
-        groups = {}
-        for v, g in zip(t["vals"], t["tgts"]):
-            groups.setdefault(g, []).append(ct_names.get(int(v)))
-        enc_set = set(max(groups.values(), key=len))
+    for p_ in enumerate_paths(enc):
+        if p_.end != "return":
+            continue
+        if any(e.kind in ("lenenc_str", "raw", "call") for e in _wire.path_emissions(prog, p_)):
+            arm_ = _coltype.arm_of(enc, p_, ct_names, prog)
+            if arm_ and arm_ != ("other",):
+                enc_set |= set(arm_)
     dec_set = set()
     for a in seen_arms:
         if set(a) & STRINGLIKE:
